@@ -27,12 +27,12 @@ CLAIMS = {
             "DESIGN 4/C03, 11", TECH + ": class invariant + per-operation triples", FS_NOTE),
     "C04": ("other", "Re-key (_StatePointDict._save) proved for an arbitrary number of live handles: directory moved with all entries, new state point written, no backup left, every handle follows; "
             "DestinationExistsError implies byte-identical state; occupied destination never clobbered. Job.move, Project.clone, the statepoint setter and update_statepoint (conflict => KeyError "
-            "without effect; otherwise the live state point updated) likewise. Copy / pickle protocols are bounded (known finding F22).",
+            "without effect; otherwise the live state point updated) likewise. Copy / pickle protocols are bounded (known findings F22; F26 for re-keys inside a buffered block).",
             "DESIGN 4/C04, 11", TECH + ", arbitrary-element loop rule for the handle list", FS_NOTE),
     "C05": ("other", "What signac itself contributes is proved: Job.document hands out one cached BufferedJSONAttrDict bound to this job's document file with write_concern=True, only after the "
-            "directory exists; `job.document = v` resets that persistent document exactly once whatever the value; handles are dropped on remove / id change (C03/C04 contracts); signac.buffered & "
+            "directory exists; `job.document = v` resets that persistent document exactly once whatever the value; handles are dropped on remove / id change (re-key contract, also checked under C05); signac.buffered & "
             "friends are attributes of that very class. The dict / buffering semantics themselves belong to the dependency: assumed, and checked bounded against a plain dict model (dependency "
-            "findings F23/F24 recorded).", "DESIGN 4/C05, 11", TECH + " of the wiring; bounded model-equality contract for the dependency's dict semantics", FS_NOTE),
+            "findings F23/F24 recorded; F26: a state point change after a buffered document write loses the buffered content).", "DESIGN 4/C05, 11", TECH + " of the wiring; bounded model-equality contract for the dependency's dict semantics", FS_NOTE),
     "C06": ("other",
             "Contracts on the real query-evaluation chain (_find_with_index_operator per operator and argument container, _find_expression, _find_result, Project._build_index, "
             "_root_keys/_add_prefix) discharged for all inputs against a per-job matcher specification; regex and isclose are uninterpreted (wiring proved). Known finding F3 "
@@ -64,7 +64,7 @@ CLAIMS = {
             "_StatePointDict.load/save and the dependency's read/write contracts): under interference by any number of other actors of the script set before every file-system call, no "
             "exception escapes, the job directory holds a valid state point on return, and every own effect is a step the others may rely on. This covers every interleaving, not a sample. "
             "Document-write visibility and torn-read freedom rest on the dependency's atomic-replace contract (assumed; see C10); listing under interference and the whole-run lemma are not "
-            "mechanised: level 'other'.",
+            "mechanised; a bounded two-process scheduler (one preemption at every file-system step of one process) runs the actor scripts natively: level 'other'.",
             "DESIGN 4/C12, 11", TECH + " in rely/guarantee mode: interference before every external, guarantee obligation per effect", FS_NOTE),
     "C13": ("other", "One directory level of the file walk (_sync_job_workspaces) proved for all listings, exclude sets and strategies: left-only files copied iff not excluded, left-only directories iff "
             "recursive, differing files iff the strategy says so, nothing else copied, every copy goes to the same relative place, common sub-directories visited with all options forwarded (the recursive "
@@ -82,16 +82,18 @@ CLAIMS = {
             TECH + ": frame obligations on an effect log, call-site forwarding obligations", SYNC_NOTE),
     "C16": ("other", "Export side under contract: _check_directory_structure_validity proved with loop invariants over a token-prefix theory (accepted iff no export path is a proper token prefix of "
             "another, in any order), _check_path_function_unique (refused iff two jobs share a path), _make_path_function (a generated path function is only returned after the one-to-one check), "
-            "_export_jobs (checks before the first copy, exactly one copy and one report per job); Project.clone / Job.init carry 'never overwrites an existing job'. The import analysers and the "
+            "_export_jobs (checks before the first copy, exactly one copy and one report per job); Project.clone / Job.init carry 'never overwrites an existing job'. Import side: _crawl_directory_data_space (an identified job directory is pruned in place from the walk), "
+            "_analyze_directory_for_import (refused iff two sources map to one job), _copy_to_job_workspace, _with_consistency_check. The zip / tar analysers and the "
             "archive libraries are outside the subset: round trips are decided by the bounded layer. Four defects found this way were repaired (F17, F18, F19, F25).", "DESIGN 4/C16, 11",
             TECH + " for the export-side checks; bounded run-time contract checking (stand-in, labelled bounded) for whole round trips", BASE_TRUST),
     "C17": ("other", "_update_view proved with loop invariants over three symbolic work lists: every obsolete path removed, every changed link unlinked and re-created, every new link created, "
-            "nothing else touched, and an early 'up to date' exit only when all lists are empty. Tree colouring / os.walk helpers and the whole-view statements (one link per job, equals a from-scratch "
+            "nothing else touched, and an early 'up to date' exit only when all lists are empty; _analyze_view (obsolete = every non-empty dead branch but the root, deepest first; "
+            "new / to_update by set algebra), _find_all_links (leaf among sub-directories or files) and _make_link likewise. The recursive tree helpers and the whole-view statements (one link per job, equals a from-scratch "
             "build, idempotent) are bounded; F18 / F20 / F21 were found and repaired.", "DESIGN 4/C17, 11",
             TECH + " of _update_view; bounded contract checking of the view as a whole", BASE_TRUST),
     "C18": ("other", "diff_jobs proved against set algebra on flattened (key, value) pairs for 0..3 jobs of arbitrary content (each diff = pairs not shared by all; common + diff reconstructs); "
-            "detect_schema proved to summarise exactly the selected existing jobs (an empty selection selects nothing) with exclude_const forwarded; _build_index per job. "
-            "_build_job_statepoint_index is bounded (known finding F3 on the index).", "DESIGN 4/C18, 11",
+            "detect_schema proved to summarise exactly the selected existing jobs (an empty selection selects nothing) with exclude_const forwarded; _build_index per job; _build_job_statepoint_index with loop invariants (exactly the state point keys of the indexed jobs; a key is left out iff constants are excluded "
+            "and one value is shared by all jobs). The value index itself (_SearchIndexer.build_index) is bounded (known finding F3).", "DESIGN 4/C18, 11",
             TECH + "; bounded contract checking against reference summaries", BASE_TRUST),
     "C19": ("other", "_locate_config_dir proved with loop invariants and a decreasing variant over an axiomatised directory chain; Project.get_project (nearest enclosing project, only the directory "
             "itself without search, LookupError conditions), Project.get_job (the last id-like path component, project searched from its parent), Project.init_project (an existing project is "
